@@ -390,11 +390,30 @@ def c09_6(ctx, ss):
     no_state_effects(ctx, ss, "C09.6", ff)
 
 
-def no_state_effects(ctx, ss, rule, ff):
-    """Effect analysis: nothing the function runs (helpers, lookups, accessors) writes parser / class / module state."""
+def _shared_attr(ss, ff, attr_root: str) -> bool:
+    """Is `self.X` an attribute shared by all instances (declared in the class body and never bound on the instance)?"""
+    if not attr_root.startswith("self."):
+        return True          # module / class-level name
+    name = attr_root[5:].split(".")[0].split("[")[0]
+    mf = pf.module_facts(ss, ff.module)
+    cf = mf.classes.get(ff.cls) if ff.cls else None
+    if cf is None:
+        return False
+    in_body = name in cf.class_attrs
+    bound_on_instance = any(isinstance(n, (ast.Assign, ast.AnnAssign)) and any(isinstance(t, ast.Attribute) and t.attr == name and txt(t.value) == "self"
+                                                                                for t in (n.targets if isinstance(n, ast.Assign) else [n.target]))
+                            for m in cf.methods.values() for n in pf.walk_no_nested(m.node))
+    return in_body and not bound_on_instance
+
+
+def no_state_effects(ctx, ss, rule, ff, shared_only: bool = False):
+    """Effect analysis: nothing the function runs (helpers, lookups, accessors) writes parser / class / module state.
+    shared_only: only state shared between parser instances counts (a per-instance memo is C08's business, not this rule's)."""
     from ..core.effects import effects
     ef = effects(ss)
     ws = [w for w in ef.transitive_state_writes(ff.key) if not (w.root[0] == "state" and w.root[1] in ("self._grammar", "self._grammar_info"))]
+    if shared_only:
+        ws = [w for w in ws if w.root[0] != "state" or _shared_attr(ss, ef.cg.funcs[w.func], w.root[1])]
     k = ckey(ff, None, "no-state-effects")
     st = [w for w in ws if w.root[0] == "state"]
     if st:
